@@ -5,6 +5,7 @@ import (
 	"bytes"
 	"compress/gzip"
 	"fmt"
+	"io"
 	"os"
 	"sort"
 	"strconv"
@@ -82,6 +83,27 @@ var changelogImpl = map[string]core.Adapter{
 		// and a gzip stream as changelog.Debian.gz is read
 		if de := clResult(changelog.Parse(iotest.DataErrReader(strings.NewReader(text)))); de != res {
 			return "data-with-eof-reader-differs " + res + " / " + de
+		}
+		// the caller's own loop over ParseOne, on its own buffered reader of any size (what Parse
+		// does, spelled out): the same entries, the same outcome
+		if len(text)%3 != 1 {
+			br := bufio.NewReaderSize(strings.NewReader(text), []int{16, 64, 1024, 4096, 8192}[len(text)%5])
+			var es changelog.ChangelogEntries
+			var lerr error
+			for i := 0; i < 100000; i++ {
+				e, err := changelog.ParseOne(br)
+				if err == io.EOF {
+					break
+				}
+				if err != nil {
+					es, lerr = changelog.ChangelogEntries{}, err
+					break
+				}
+				es = append(es, *e)
+			}
+			if loop := clResult(es, lerr); loop != res {
+				return "parseone-loop-differs " + res + " / " + loop
+			}
 		}
 		if len(text)%5 == 0 {
 			var zb bytes.Buffer
